@@ -16,16 +16,19 @@ pub struct F {
     pub l: &'static LexFormat,
     /// well-formed atom names of this format used by the value universes
     pub names: &'static [&'static str],
+    /// further well-formed names swept by the thorough tier only (underscore, non-ASCII letter,
+    /// emoji, upper case with digits, doubled inner dash)
+    pub extra_names: &'static [&'static str],
 }
 
 pub fn ascii() -> F {
-    F { name: "ascii", e: &E_ASCII, l: &lf::FORMAT_ASCII, names: &["a", "b1", "x-y", "0"] }
+    F { name: "ascii", e: &E_ASCII, l: &lf::FORMAT_ASCII, names: &["a", "b1", "x-y", "0"], extra_names: &["x_y", "é", "😀", "A1", "p--q"] }
 }
 pub fn latex() -> F {
-    F { name: "latex", e: &E_LATEX, l: &lf::FORMAT_LATEX, names: &["a", "b1", "x-y", "0"] }
+    F { name: "latex", e: &E_LATEX, l: &lf::FORMAT_LATEX, names: &["a", "b1", "x-y", "0"], extra_names: &["x_y", "é", "😀", "A1", "p--q"] }
 }
 pub fn han() -> F {
-    F { name: "han", e: &E_HAN, l: &lf::FORMAT_HAN, names: &["a", "b1", "x-y", "0", "甲", "乙将"] }
+    F { name: "han", e: &E_HAN, l: &lf::FORMAT_HAN, names: &["a", "b1", "x-y", "0", "甲", "乙将"], extra_names: &["x_y", "é", "😀", "A1", "p--q"] }
 }
 pub fn all() -> [F; 3] {
     [ascii(), latex(), han()]
